@@ -493,7 +493,7 @@ func checkC25(c *Ctx, r *Report) {
 						common = intersect(common, a.Held)
 					}
 				}
-				key := tn + "." + fn + ":nil-reset"
+				key := c.stableFieldKey(tn, fn) + ":nil-reset"
 				if len(common) == 0 {
 					r.bad("R4", key, c.instrPos(i), "the pointer is reset to nil while other goroutines (timer callbacks / receive loop) may be using it, without a common lock: nil dereference")
 				} else {
